@@ -45,6 +45,8 @@ def streams(tier, rng, P, only=None, cases=None):
         elif tt == "Voice":
             for v in (range(1, 129) if big else list(range(1, 129, 7)) + [128]): add(n, "%s(%d)" % (n, v), [v])
             for bank in ([10, 3, 4], [10, 3], [5, 0, 0], [5, 0], [1, 0, 7], [128, 8, 0], [64, 127, 127], [7, 1]): add(n, "%s(%s)" % (n, ",".join(map(str, bank))), bank)
+            # an argument left out keeps its place and counts as 0: the values after it stay with their own controllers
+            for txt, bank in (("5,,2", [5, 0, 2]), ("9,,127", [9, 0, 127]), ("64,,1", [64, 0, 1])): add(n, "%s(%s)" % (n, txt), bank)
         elif tt == "PitchBend":
             for v in (range(-8192, 8192, 1 if big else 257)): add(n, "%s(%d)" % (n, v), [v])
             for v in (-8192, -1, 0, 1, 8191): add(n, "%s(%d)" % (n, v), [v])
@@ -56,6 +58,7 @@ def streams(tier, rng, P, only=None, cases=None):
         elif tt == "GSEffect" and n not in ("GS_RHYTHM", "GSScaleTuning"):
             if n == "GSEffect":
                 for v in (0, 5, 127): add(n, "GSEffect($30,%d)" % v, [0x30, v])
+                add(n, "GSEffect(,4)", [0, 4])
             else:
                 for v in vals7()[::3]: add(n, "%s(%d)" % (n, v), [v])
         elif tt == "ControlChange" and not n.startswith("PlayFrom"):
@@ -63,11 +66,13 @@ def streams(tier, rng, P, only=None, cases=None):
                 for v in (0, 64, 127): add(n, "%s(%d,%d)" % (n, c, v), [c, v])
         elif tt in ("RPN", "NRPN"):
             for (a, b, c) in [(0, 0, 12), (0, 1, 64), (1, 8, 64), (1, 32, 100), (127, 127, 127)]: add(n, "%s(%d,%d,%d)" % (n, a, b, c), [a, b, c])
+            for txt, a3 in (("0,,64", [0, 0, 64]), (",8,64", [0, 8, 64]), ("1,,5", [1, 0, 5])): add(n, "%s(%s)" % (n, txt), a3)
     # lower-case commands
     for c in ([0, 1, 7, 10, 11, 64, 91, 127] if not big else range(128)):
         for v in vals7()[::4]: add("y", "y%d,%d" % (c, v), [c, v])
     for v in vals7(): add("p", "p%d" % v, [v]); 
     for v in (range(1, 129) if big else list(range(1, 129, 5)) + [128]): add("@", "@%d" % v, [v])
+    for txt, bank in (("5,,2", [5, 0, 2]), ("100,,127", [100, 0, 127])): add("@", "@" + txt, bank)
     add("@", "@0", [0]); add("@", "@129", [129])
     for bank in ([10, 3, 4], [10, 3], [5, 0, 0], [5, 0], [1, 0, 7], [128, 8, 0], [64, 127, 127], [7, 1]): add("@", "@" + ",".join(map(str, bank)), bank)   # explicit banks, including bank 0/0
     for no, nm in T["voiceMd"]:
